@@ -418,10 +418,20 @@ func (sdb *DbSqlite) initJwtKey() error {
 	return nil
 }
 
+// timeFitsDb reports whether t can be stored in the time columns, which hold
+// nanoseconds since the Unix epoch as a 64-bit integer (years 1678 to 2262).
+// The zero time is replaced by the current time before it is stored.
+func timeFitsDb(t time.Time) bool {
+	return t.IsZero() || !(t.Before(time.Unix(0, math.MinInt64)) || t.After(time.Unix(0, math.MaxInt64)))
+}
+
 func (sdb *DbSqlite) nodePoints(id string, points data.Points) error {
 	for _, p := range points {
 		if math.IsNaN(p.Value) {
 			return fmt.Errorf("Error: point %v value is not a number", p.Type)
+		}
+		if !timeFitsDb(p.Time) {
+			return fmt.Errorf("Error: point %v time is out of range", p.Type)
 		}
 	}
 
@@ -568,6 +578,9 @@ func (sdb *DbSqlite) edgePoints(nodeID, parentID string, points data.Points) err
 	for _, p := range points {
 		if math.IsNaN(p.Value) {
 			return fmt.Errorf("Error: point %v value is not a number", p.Type)
+		}
+		if !timeFitsDb(p.Time) {
+			return fmt.Errorf("Error: point %v time is out of range", p.Type)
 		}
 	}
 
